@@ -78,6 +78,55 @@ def verif_key():
     return h.hexdigest()[:16]
 
 
+def spec_deps(module, seen=None):
+    """Spec files a module depends on (EXTENDS / INSTANCE, transitively), restricted to /verif/spec."""
+    seen = seen if seen is not None else set()
+    p = os.path.join(SPEC, module + ".tla")
+    if module in seen or not os.path.exists(p):
+        return seen
+    seen.add(module)
+    with open(p) as f:
+        txt = f.read()
+    names = set()
+    for m in re.finditer(r"^\s*EXTENDS\s+([^\n]+)", txt, re.M):
+        names |= {x.strip() for x in m.group(1).split(",")}
+    for m in re.finditer(r"INSTANCE\s+(\w+)", txt):
+        names.add(m.group(1))
+    for n in names:
+        spec_deps(n, seen)
+    return seen
+
+
+def files_key(paths):
+    h = hashlib.sha256()
+    for p in sorted(paths):
+        if os.path.exists(p):
+            h.update(p.encode())
+            with open(p, "rb") as fh:
+                h.update(fh.read())
+    return h.hexdigest()[:16]
+
+
+def mc_key(module, cfgs):
+    paths = [os.path.join(SPEC, m + ".tla") for m in spec_deps(module)]
+    paths += [os.path.join(SPEC, c) for c in cfgs]
+    return files_key(paths)
+
+
+def trace_key(trace_module, cfg_in, sim=None):
+    mods = set(spec_deps(trace_module))
+    paths = [os.path.join(SPEC, cfg_in)]
+    if sim:
+        mods |= spec_deps(sim["module"])
+        paths.append(os.path.join(SPEC, sim["cfg"]))
+    paths += [os.path.join(SPEC, m + ".tla") for m in mods]
+    for root in (os.path.join(HARNESS, "vvm", "src"), os.path.join(HARNESS, "drivers", "src")):
+        for d, _, files in sorted(os.walk(root)):
+            paths += [os.path.join(d, f) for f in files]
+    paths += [os.path.join(VERIF, f) for f in ("vlib.py", "check", "known_findings.json", "harness/Cargo.toml")]
+    return files_key(paths)
+
+
 # --------------------------------------------------------------------------------------------
 # harness build (always from /repo's current working tree: the crates are path dependencies)
 
